@@ -71,11 +71,50 @@ def _library_frame(tb):
     return None
 
 
+class ShardBudgetExceeded(BaseException):
+    """a shard used far more CPU time than any shard does on a conforming tree (never a verdict: exit 2)"""
+
+
+def _budget_handler(signum, frame):
+    raise ShardBudgetExceeded()
+
+
+SHARD_CPU_BUDGET_S = int(os.environ.get("VERIF_SHARD_CPU_BUDGET", "1500"))  # user CPU seconds; the longest shard needs < 120
+SHARD_MEM_LIMIT = int(os.environ.get("VERIF_SHARD_MEM_LIMIT", str(12 << 30)))
+
+
+def _arm_budget():
+    import resource
+    import signal
+
+    try:
+        signal.signal(signal.SIGVTALRM, _budget_handler)
+        signal.setitimer(signal.ITIMER_VIRTUAL, SHARD_CPU_BUDGET_S)
+        soft, hard = resource.getrlimit(resource.RLIMIT_AS)
+        if soft == resource.RLIM_INFINITY or soft > SHARD_MEM_LIMIT:
+            resource.setrlimit(resource.RLIMIT_AS, (SHARD_MEM_LIMIT, hard))
+    except (ValueError, OSError):
+        pass
+
+
+def _disarm_budget():
+    import signal
+
+    try:
+        signal.setitimer(signal.ITIMER_VIRTUAL, 0)
+    except (ValueError, OSError):
+        pass
+
+
 def _worker_run(arg):
     pid, idx, item = arg
     mod = load_check(pid)
     try:
-        res = mod.run_shard(item)
+        _arm_budget()
+        try:
+            res = mod.run_shard(item)
+        finally:
+            _disarm_budget()
     except BaseException as e:
         lib = _library_frame(e.__traceback__) if isinstance(e, Exception) else None
         text = "".join(traceback.format_exception(type(e), e, e.__traceback__))[-4000:]
